@@ -26,3 +26,4 @@ def run(ck):
     sizes.resize_rules(ck, {"refresh": "C02.R5"})
     fresh.no_class_state_writes(ck, "C20.R7")
     fresh.no_hidden_state(ck, "C20.R8")                  # results depend on the documented state only (no caches / memos)
+    fresh.constructor_state(ck, "C20.R2")
